@@ -1,7 +1,7 @@
 CONSTANTS Big = FALSE CP = 79 CB = 7 CN = 67 CGx = 1 CGy = 18
 SignMsgs = {0,1,2}
 SignAuxs = {0,1}
-VerMsgs = {0,2}
+VerMsgs = {1}
 CountPks = {1,2}
 LenDs = {1,2,3,65,66}
 EmitRows = TRUE
